@@ -14,12 +14,12 @@ func parseArraiStringFragment(s string, validEscapes string, indent string) stri
 	var sb strings.Builder
 
 	number := func(i, size, base int) int {
-		n, err := strconv.ParseUint(s[i:i+size], base, size*base/4)
+		n, err := strconv.ParseUint(s[i:i+size], base, 32)
 		if err != nil {
 			panic(err)
 		}
 		sb.WriteRune(rune(n))
-		return i + size
+		return i + size - 1
 	}
 
 	for i := 0; i < len(s); i++ {
